@@ -20,7 +20,9 @@ ALSO_COUNT = ["query-model:compress", "query-model:expand", "query-model:expand_
 RULE = (
     "case = random clash-free record set whose CURIE prefixes do not contain the delimiter (empty prefix included; half "
     "of the cases are forced pairwise prefix-free, the rest nest), built in a random way - every third case by registering "
-    "record after record while URIs and CURIEs of the final map are already being looked up; for every recognised URI u "
+    "record after record while URIs and CURIEs of the final map are already being looked up, and two thirds of the cases "
+    "also attempt registrations that must be rejected (clash in a late field) whose strings are then put through the same "
+    "relations; for every recognised URI u "
     "derived from it (identifiers include tails of other records' URI prefixes): u in expand_all(compress(u)), "
     "expand(compress(u)) == standardize_uri(u) (== u when u uses a canonical URI prefix), expand results compress again; "
     "on prefix-free maps additionally compress(expand(c)) == standardize_curie(c) and expand(compress(u)) == "
@@ -70,12 +72,42 @@ def run_case(ctx, g, rng):
                 call(c.add_prefix, r.prefix, r.uri_prefix, list(r.psyn), list(r.usyn))
     else:
         c, how = gen.build(api, recs, d, rng)
+    ghost_u, ghost_p = [], []
+    if g % 3 != 0 and recs:
+        # registrations that must be rejected (clash in a late field); afterwards their strings are ghosts that
+        # must neither compress nor expand - asked through the same round-trip relations below
+        for k in range(2):
+            r0 = rng.choice(recs)
+            gp, gs, gu, gus = f"gh{k}", f"ghs{k}", f"http://gh{k}.org/", f"http://ghs{k}.org/"
+            kind = rng.choice(["uri-synonym", "prefix-synonym", "uri-prefix"])
+            if kind == "uri-synonym":
+                o = call(c.add_prefix, gp, gu, [gs], [gus, rng.choice(spec.all_u(r0))])
+            elif kind == "prefix-synonym":
+                o = call(c.add_prefix, gp, gu, [gs, rng.choice(spec.all_p(r0))], [gus])
+            else:
+                o = call(c.add_prefix, gp, rng.choice(spec.all_u(r0)), [gs], [gus])
+            if o[0] == "raise":
+                ghost_u += [gu, gus]
+                ghost_p += [gp, gs]
+                S.counters[f"wl:rejected-registration:{kind}"] += 1
+        how += "+rejections"
     sp = spec.SpecConverter(recs, d)
     pf = sp.prefix_free()
     tails = [u2[len(u1):] for u1 in allu for u2 in allu if u2 != u1 and u2.startswith(u1)]
     ids = ["1"] + rng.sample(gen.IDS, k=4) + tails[:4] + ["", d, rng.choice(gen.UNICODE)]
     w = {"records": [spec.rec_dict(r) for r in recs], "delimiter": d, "prefix_free": pf}
-    for u0 in allu:
+    for p in ghost_p:  # every URI produced by expand is itself compressible and round-trips
+        curie = p + d + "1"
+        e = call(c.expand, curie)
+        probe.evaluated("round-trip")
+        if e[0] == "ret" and e[1] is not None:
+            back = call(c.compress, e[1])
+            if back[0] != "ret" or back[1] is None:
+                violation(["C03"], "round-trip", "expansion-not-compressible", curie=curie, expanded=e[1], note="prefix of a rejected registration", **w)
+            elif call(c.expand, back[1]) != e:
+                violation(["C03"], "round-trip", "compress-of-expand-differs-from-standardize_curie", curie=curie, expanded=e[1], compressed=back, note="prefix of a rejected registration", **w)
+        probe.note_key(f"ghost-curie:pf{int(pf)}", True)
+    for u0 in allu + ghost_u:
         for i in ids:
             u = u0 + i
             cu = call(c.compress, u)
@@ -104,7 +136,7 @@ def run_case(ctx, g, rng):
                 if back is None or repr(back) != repr(sc) or back[1] is None:
                     violation(["C03"], "bijection-on-prefix-free", "compress-of-expand-differs-from-standardize_curie",
                               uri=u, curie=curie, compress_expand=back, standardize_curie=sc, **w)
-            mcls = "multi" if len(m) >= 2 else "canonical" if canonical else "synonym"
+            mcls = "ghost" if u0 in ghost_u else "multi" if len(m) >= 2 else "canonical" if canonical else "synonym"
             icls = "tail" if i in tails else "empty" if i == "" else "delim" if d in i else "other"
             probe.note_key(f"pf{int(pf)}:{mcls}:{icls}:{'colon' if d == ':' else 'other'}", nontrivial=pf or mcls != "canonical")
             S.counters["wl:uris"] += 1
